@@ -994,13 +994,17 @@ fn run_field(cmd: &Cmd, fi: usize, v: u64, sc: u8, rng: &mut Prng, col: &mut Col
     let mut c = (cmd.make)();
     let mut script: Vec<(usize, u64)> = vec![];
     if sc > 0 {
-        for (gi, g) in cmd.fields.iter().enumerate() {
-            if gi != fi {
-                script.push((gi, rand_adm(g, rng)));
-            }
-        }
+        // the field's own earlier value first, the other fields after it: a setter that disturbs
+        // its neighbours must not be able to do the damage during the pre-fill already
         let prev = if sc == 2 { (f.trunc)(!v & full(f.bits)) } else { rand_adm(f, rng) };
         script.push((fi, prev));
+        for (gi, g) in cmd.fields.iter().enumerate() {
+            if gi != fi {
+                // neighbours all-ones half of the time: a cleared bit is then always visible
+                let gv = if rng.bool() { (g.trunc)(full(g.bits)) } else { rand_adm(g, rng) };
+                script.push((gi, if (g.adm)(gv) { gv } else { rand_adm(g, rng) }));
+            }
+        }
         for (gi, gv) in script.iter() {
             let r = trap(|| c.set(*gi, *gv));
             if r.is_err() {
@@ -1911,9 +1915,14 @@ impl Monitor for C19 {
                 } else {
                     (0..256).map(|_| if rng.chance(1, 8) { rng.next_u64() & full(f.bits) & 0xffff_ffff >> rng.below(32) } else { rng.next_u64() & full(f.bits) }).collect()
                 };
+                // narrow fields have few values: repeat them so that the randomly pre-set
+                // neighbours take many values too
+                let reps = if f.bits <= 4 { 16 } else { 1 };
                 for v in vals {
-                    for sc in 0..3u8 {
-                        run_field(cmd, fi, v, sc, rng, col);
+                    for _ in 0..reps {
+                        for sc in 0..3u8 {
+                            run_field(cmd, fi, v, sc, rng, col);
+                        }
                     }
                 }
             }
